@@ -71,3 +71,9 @@ package auth
 //@ invariant forall f RString :: visited3[f] ==> !(grants(rule.Filters[f], write) && fmatch(f, topic))
 // verif:loop auth.Ledger.ACLOk 5
 //@ invariant forall f RString :: visited4[f] ==> !fmatch(f, topic)
+// verif:func auth.Ledger.Unmarshal
+//@ requires C32-lock-not-held-by-this-goroutine: l.Mutex.lheld == 0
+//@ ensures C32-lock-released-on-return: l.Mutex.lheld == 0
+// verif:func auth.Ledger.Update
+//@ requires C32-lock-not-held-by-this-goroutine: l.Mutex.lheld == 0
+//@ ensures C32-lock-released-on-return: l.Mutex.lheld == 0
